@@ -133,6 +133,7 @@ import SqlizeModel.Proofs.Changed
 import SqlizeModel.Proofs.SpecColsDb
 import SqlizeModel.Proofs.SpecTable
 import SqlizeModel.Proofs.SpecSchema
+import SqlizeModel.Proofs.SchemaIgnoring
 import SqlizeModel.Proofs.TablesClause
 import SqlizeModel.Impl.Api
 import SqlizeModel.Spec.Scope
@@ -552,5 +553,29 @@ example : ∃ up dbO dbN, modelUp {} exOldW exNewW = .ok up ∧ execAll true [] 
 example : ∃ up dbO dbN, modelUp {} exOldW exNewW = .ok up ∧ execAll true [] exOldW = some dbO ∧ execAll true [] exNewW = some dbN ∧
     (c01 false dbO dbN up false).toOption = some () :=
   ⟨_, _, _, by rfl, by rfl, by rfl, by decide⟩
+
+/-- the same for either setting of the ignore-field-order option: with the option the migration is the one printed without
+    it, positional clauses removed (`C13.option_changes_positions_only`), the reference engine accepts it and ends in the
+    new schema up to the order of the columns inside the tables (`execAll_strip`, Proofs/StripExec) — which is what
+    `Spec.c01` asks for under the option -/
+theorem schema_on_reference_engine_either_setting (g : Globals) (hg : g.dialect = .mysql) (rc : Bool)
+    (old new : List Stmt) (dbO dbN : DB) (ho : old.all Stmt.elemSafe = true) (hn : new.all Stmt.elemSafe = true)
+    (hpo : old.all Stmt.plainOpts = true) (hpn : new.all Stmt.plainOpts = true)
+    (heo : execAll rc [] old = some dbO) (hen : execAll rc [] new = some dbN)
+    (hdef : ∀ tb ∈ dbO ++ dbN, tb.name ≠ Migration.defaultMigrationTable)
+    (hnofk : ∀ tb ∈ dbO ++ dbN, tb.fks = [])
+    (hncm : ∀ tb ∈ dbO ++ dbN, ∀ c ∈ tb.cols, ∀ k ∈ c.opts, k.noComment = true)
+    (hboth : ∀ tbO ∈ dbO, ∀ tbN ∈ dbN, tbO.name = tbN.name →
+      Abs.OrderCompatible tbN.colNames tbO.colNames ∧ (∀ n ∈ tbN.colNames ++ tbO.colNames, n ≠ "") ∧ tbO.pk = tbN.pk ∧
+      (∀ dc : List String, (∀ c ∈ dc, c ∉ tbN.colNames) →
+        ∀ s ∈ tbN.idxs, ∀ o ∈ tbO.idxs, o.name = s.name → o ≠ s → ∃ c ∈ o.cols, c ∉ dc)) :
+    ∃ up, modelUp g old new = .ok up ∧ c01 g.ignoreOrder dbO dbN up false = .ok () :=
+  schema_up_any g hg rc old new dbO dbN ho hn hpo hpn heo hen hdef hnofk hncm hboth
+
+-- non-vacuity under the option: the pair `exOldW` / `exNewW`
+example : ∃ up dbO dbN, modelUp { ignoreOrder := true } exOldW exNewW = .ok up ∧ execAll true [] exOldW = some dbO ∧
+    execAll true [] exNewW = some dbN ∧ (c01 true dbO dbN up false).toOption = some () ∧
+    (execAll false dbO up).map (fun db' => db'.equiv dbN) = some false :=
+  ⟨_, _, _, by rfl, by rfl, by rfl, by decide, by decide⟩
 
 end Sqlize.C01
